@@ -52,7 +52,8 @@ impl<R: Round, const B: Word> FBig<R, B> {
     // this number.
     pub(crate) fn split_at_point_internal(&self) -> (IBig, IBig, usize) {
         debug_assert!(self.repr.exponent < 0);
-        let shift = (-self.repr.exponent) as usize;
+        // not `(-exponent) as usize`: the negation overflows for isize::MIN
+        let shift = self.repr.exponent.unsigned_abs();
         if self.repr.smaller_than_one() {
             // the fraction is significand / B^shift: its digit count is given by the exponent
             return (IBig::ZERO, self.repr.significand.clone(), shift);
